@@ -39,6 +39,11 @@ CHECKS = {
                      "monotone in between, independent of the previous state (no compounding); forwards reach every member with the unchanged factor (loop invariant over the member list); "
                      "the scheduled transform passes Sched((k // B) * W + r) and writes it to ctx; n_batches per budget kind",
                 note=TRUST + "; floats as reals (inf/nan magnitudes outside the model); DataLoader round-robin assignment assumed"),
+    "C16": dict(level="proof", technique="contract-based deductive verification (bulk accessor == per-sample accessor as postconditions that call the real mapping function, range lemmas, ownership frame obligation; AST->SMT) + class-model frame check + bounded real wrappers",
+                text="ClassGroups / RandomSuperclass / SwapLabel / KDRandomClass / Allgather / Semi wrappers: getall_class()[k] == getitem_class(k) for all k, labels in [0, announced) or -1, "
+                     "no write into the list owned by the wrapped dataset; smoothing vector algebra on reals with symbolic class count; every int-label wrapper that rewrites getitem_class also defines getall_class; "
+                     "constructors, pseudo-label tables and one-hot encodings are bounded only",
+                note=TRUST + "; the wrapped dataset is the abstract int-label dataset (labels in [-1, C), bulk == per-sample below)"),
     "C18": dict(level="proof", technique="contract-based deductive verification of the layout state machine (ghost layout/origin, loop invariant over a symbolic member list, AST->SMT) + bounded padding collator",
                 text="_call_impl / KDComposeCollator.__call__ / KDSingleCollatorWrapper.__call__: default_collate at most once and exactly when a member asks, every member sees the layout its mode asks for, "
                      "(batch, ctx) iff configured, ctx is the batch's own batched context; obligations on explicitly rejected member orders are excused; the padding collator is bounded only",
